@@ -311,7 +311,7 @@ pub fn cargo_json(dir: &Path, cmd: &[&str]) -> (bool, Vec<Diag>, String) {
 // ------------------------------------------------------------------ C09
 
 pub fn c09_main(ctx: &Ctx, repo_bin_dir: Option<String>) -> i32 {
-    ctx.set_rule("grammar-directed definitions (anonymous structs/enums in every position, IDL and Rust keywords as field names, typedef references incl. recursion through [] and [string], 0-6 members) with at most one injected risky feature {anonymous type in error parameters, member name like a Rust keyword/prelude item, self/Self/super/crate as names, typedef named like a prelude or generated item}; front-ends: generate() in process, the varlink-rust-generator binary, varlink_derive::varlink! and a build script using cargo_build_many; oracle: rustc (cargo check) on crates that contain only emitted modules; rejection half: token-mutated texts the parser rejects; distinct = definition hash per front-end; non-trivial = >=1 anonymous or keyword-named element, or a rejected text one token away from a valid one");
+    ctx.set_rule("grammar-directed definitions (anonymous structs/enums in every position, IDL and Rust keywords as field names, typedef references incl. recursion through [] and [string], 0-6 members) with at most one injected risky feature {anonymous type in error parameters, member name like a Rust keyword/prelude item, self/Self/super/crate as names, typedef named like a prelude or generated item}; front-ends: generate() in process, the varlink-rust-generator binary, varlink_derive::varlink!, a build script using cargo_build_many, and generate_with_options (substituted int/float types + preamble; as source file and as module body); oracle: rustc (cargo check) on crates that contain only emitted modules; rejection half: token-mutated texts the parser rejects; distinct = definition hash per front-end; non-trivial = >=1 anonymous or keyword-named element, or a rejected text one token away from a valid one");
     ctx.assume("the parser's verdict (accept/reject) is taken as given here; it is judged by C11");
     ctx.assume("recursion through `?` is not generated (whether that is 'finitely sized' is not decided by the statement); field names inside one struct, enum elements and member names are distinct");
     let n = ctx.tier.pick(60usize, 1500usize);
@@ -527,6 +527,60 @@ fn front_ends(ctx: &Ctx, root: &Path, sample: &[&GenIdl]) {
     }
     if !ok && diags.is_empty() {
         ctx.violation("c09:build-script-front-end-fails", json!({"engine": "c09", "front_end": "cargo_build_many", "message": "the build script (or cargo) failed without compiler diagnostics", "tail": tail}));
+    }
+    let _ = std::fs::remove_dir_all(&dir);
+    // generator options: substituted scalar types + a preamble that defines them, written both
+    // as a stand-alone source file (tosource) and as an includable module body
+    let dir = root.join("opt");
+    let mut files: Vec<(String, String)> = Vec::new();
+    let mut lib = String::from("#![allow(warnings)]\n");
+    let mut produced: Vec<(usize, bool)> = Vec::new();
+    for (k, g) in sample.iter().enumerate() {
+        for tosource in [true, false] {
+            let t = g.text.clone();
+            let r = std::panic::catch_unwind(move || {
+                let opts = varlink_generator::GeneratorOptions {
+                    int_type: Some("Int"),
+                    float_type: Some("Flt"),
+                    preamble: Some("pub type Int = i64; pub type Flt = f64; use std::collections::BTreeSet as _UnusedPreambleImport;".parse().unwrap()),
+                    ..Default::default()
+                };
+                let mut out: Vec<u8> = Vec::new();
+                varlink_generator::generate_with_options(&mut t.as_bytes(), &mut out, &opts, tosource).map(|_| out).map_err(|e| e.to_string())
+            });
+            ctx.case(Some(hash_of(&("options", tosource, &g.text))));
+            match r {
+                Ok(Ok(out)) => {
+                    let code = String::from_utf8_lossy(&out).to_string();
+                    if tosource {
+                        files.push((format!("src/o{}.rs", k), code));
+                        lib.push_str(&format!("pub mod o{};\n", k));
+                    } else {
+                        files.push((format!("src/p{}_inc.rs", k), code));
+                        lib.push_str(&format!("pub mod p{} {{ include!(\"p{}_inc.rs\"); }}\n", k, k));
+                    }
+                    produced.push((k, tosource));
+                }
+                Ok(Err(e)) => ctx.violation("c09:generate-fails-on-valid-definition:with-options", json!({"engine": "c09", "front_end": "generate_with_options", "tosource": tosource, "definition": g.text, "message": e})),
+                Err(_) => ctx.violation("c09:generate-panics:with-options", json!({"engine": "c09", "front_end": "generate_with_options", "tosource": tosource, "definition": g.text})),
+            }
+        }
+    }
+    files.push(("src/lib.rs".into(), lib));
+    write_crate(&dir, "opt", "", &files, None);
+    let (ok, diags, tail) = cargo_json(&dir, &["check"]);
+    ctx.count("options_front_end_modules", produced.len() as u64);
+    for (k, tosource) in &produced {
+        let fname = if *tosource { format!("o{}.rs", k) } else { format!("p{}_inc.rs", k) };
+        if let Some(d) = diags.iter().find(|d| d.file.ends_with(&fname)) {
+            ctx.violation(
+                "c09:options-front-end-output-does-not-compile",
+                json!({"engine": "c09", "front_end": "generate_with_options(int_type, float_type, preamble)", "tosource": tosource, "definition": sample[*k].text, "first_error": d.message, "rendered": d.rendered}),
+            );
+        }
+    }
+    if !ok && diags.is_empty() {
+        ctx.inconclusive(json!({"harness": "options crate failed without diagnostics", "tail": tail}));
     }
     let _ = std::fs::remove_dir_all(&dir);
 }
